@@ -3,6 +3,7 @@ import HC.Proofs.Complete
 import HC.Proofs.UpgradeComplete
 import HC.Proofs.Sync
 import HC.Proofs.Replica
+import HC.Proofs.Growth
 /-!
 # C03 — any honest proof is accepted and replicas converge to the writer's data
 
@@ -50,11 +51,20 @@ Proved so far:
   has its sibling and parent stored — which is what makes `byte_offset_from_nodes` work on a sparse tree; bits = held
   set; the data store holds the held blocks at the writer's offsets; the tree store's size is a multiple of the slot
   size so that flushing cannot surface a half slot), `apply_first_upgrade`, `apply_block`, `get_held`.
+* **`replica_grows`** (unbounded, core level, **growth rounds**): the same for a log that keeps growing.  After first
+  contact at any length `n₁`, the replica plays any list of acts — *upgrade to the writer's current length `n`*
+  (any `n` above its own length, as often as the writer grows) and *fetch block `i`* (any index below its current
+  length), in any order.  The upgrade answer is the greedy decomposition of `[m, n)` into aligned blocks
+  (`Growth.Up`; `up_exists`: it exists for every `m < n`); inside the first new root the replica's `verify_upgrade`
+  runs its `grow` loop, where every appended block is the right sibling of the current last root and merges upwards
+  like a binary counter.  Every act is answered `true`; at the end the replica reports the last length and its byte
+  length and serves exactly the fetched blocks, byte-identical.  Key lemma: `Growth.dyadic_append_closed` — one
+  aligned append takes a closed replica of the first `L` blocks to a closed replica of the first `L + 2^J` blocks.
 * `honest_block_is_writers`: the proof applied in these theorems is the one the writer's `create_valueless_proof`
   produces for the replica's request, with the block's bytes.
 
-Partial: proofs with a hash or seek section, upgrades from a non-empty replica or to less than the writer's
-length (additional nodes), block + upgrade in one proof, replica reopen and writer-side clears are not proved complete;
+Partial: proofs with a hash or seek section, upgrades to less than the writer's length (additional nodes),
+block + upgrade in one proof, replica reopen and writer-side clears are not proved complete;
 they are validated by the correspondence run — every honest proof (all request orders, partial upgrades
 with additional nodes, seeks, hash sweeps, replica reopen, cleared blocks) must be accepted by the real
 crate and by the model, and the replica must converge.
@@ -258,5 +268,30 @@ example (C : Crypto) (bs : Array Bytes) (hs : bs.size < 2 ^ 64 ∧ Offsets.psum 
     simp [RefProof.rootsStack_zero] at hp
   · rw [ht]; intro k n h; simp at h
   · rw [hh]; exact ⟨(fun i hi => by cases hi), hg 0⟩
+
+/-- **C03 at core level with growth rounds.**  First contact at length `n₁`, then any list of acts — upgrades to larger
+    lengths of the writer's log and block requests below the current length, in any order: every application answers
+    `true`; afterwards the replica reports the last length and its byte length, every fetched block reads back
+    byte-identical to the writer's, every other index reads as not held. -/
+theorem replica_grows (C : Crypto) (hC : TreeStore.HashWF C) (bs : Array Bytes) (hs : bs.size < 2 ^ 64 ∧ Offsets.psum bs bs.size < 2 ^ 64)
+    (n₁ : Nat) (h0 : 0 < n₁) (hn : n₁ ≤ bs.size) (c : Core) (d : Disk) (h : Replica.FreshR C (bs.extract 0 n₁) c d)
+    (sig : Bytes) (hsl : sig.length = 64) (hver : C.verify c.publicKey (Growth.signableAt C bs n₁ c.tree.fork) sig = true)
+    (acts : List Growth.Act) (hok : Growth.OkActs C bs c.publicKey c.tree.fork n₁ acts) :
+    let st1 := c.verifyAndApply C d (Growth.honestFirst C bs c.tree.fork n₁ sig)
+    let s2 := Growth.play C bs (st1.core, d.applyAll st1.journal) acts
+    st1.result = .ok true
+      ∧ Growth.playResults C bs (st1.core, d.applyAll st1.journal) acts = acts.map (fun _ => .ok true)
+      ∧ s2.1.tree.length = Growth.lenAfter n₁ acts ∧ s2.1.tree.byteLength = Offsets.psum bs (Growth.lenAfter n₁ acts)
+      ∧ (∀ j, Growth.fetched acts j = true → (s2.1.getBlock s2.2 j).result = .ok (some (bs.getD j [])))
+      ∧ (∀ j, Growth.fetched acts j = false → (s2.1.getBlock s2.2 j).result = .ok none) := by
+  intro st1 s2
+  obtain ⟨r1, r2, r3, r4⟩ := Growth.first_contact_at C hC bs hs n₁ h0 hn c d h sig hsl hver
+  obtain ⟨q1, q2⟩ := Growth.play_repr C hC bs c.publicKey c.tree.fork acts n₁ _ _ _ r2 h0 r4 r3 hok
+  refine ⟨r1, q2, q1.closed.sparse.length, q1.bytes, fun j hj => ?_, fun j hj => ?_⟩
+  · exact Growth.get_held_at C bs _ _ _ _ q1 j (by simp [hj])
+  · exact Growth.get_missing_at C bs _ _ _ _ q1 j (by simp [hj])
+
+/-- non-vacuity of the acts: for every pair of lengths there is an honest position list -/
+example (m n : Nat) (h : m < n) : ∃ us, Growth.Up m 0 (RefTree.rootsStack n).reverse us := Growth.up_exists0 m n h
 
 end HC.C03
